@@ -176,9 +176,12 @@ CLAMP_VAL
 /* (1) origins are never negative; the destination-to-source offset is preserved */
 __CPROVER_ensures(*x >= 0 && *sx >= 0 && *x - *sx == __CPROVER_old(*x) - __CPROVER_old(*sx))
 __CPROVER_ensures(*y >= 0 && *sy >= 0 && *y - *sy == __CPROVER_old(*y) - __CPROVER_old(*sy))
-/* (2) per axis, a non-empty span lies inside both canvases: every pixel accessor call of the blit loops is in range */
-__CPROVER_ensures(g_cw > 0 ==> (*x + g_cw <= dest->width && *sx + g_cw <= source->width))
-__CPROVER_ensures(g_ch > 0 ==> (*y + g_ch <= dest->height && *sy + g_ch <= source->height))
+/* (2) per axis, a non-empty span lies inside both canvases: every pixel accessor call of the blit loops is in range
+ *     (subtraction form and explicit bounds: no term of these clauses can wrap) */
+__CPROVER_ensures(*x < 2 * C07_CMAX && *sx < 2 * C07_CMAX && g_cw <= __CPROVER_old(*w) && g_cw > -4 * C07_CMAX)
+__CPROVER_ensures(*y < 2 * C07_CMAX && *sy < 2 * C07_CMAX && g_ch <= __CPROVER_old(*h) && g_ch > -4 * C07_CMAX)
+__CPROVER_ensures(g_cw > 0 ==> (g_cw <= dest->width - *x && g_cw <= source->width - *sx))
+__CPROVER_ensures(g_ch > 0 ==> (g_ch <= dest->height - *y && g_ch <= source->height - *sy))
 /* (3) per axis, sound and maximal: the symbolic destination column/row is in the span iff the intersection model copies it */
 __CPROVER_ensures(AXIS_IN(g_dx, *x, g_cw) == AXIS_MODEL(g_dx, __CPROVER_old(*x), __CPROVER_old(*w), __CPROVER_old(*sx), dest->width, source->width))
 __CPROVER_ensures(AXIS_IN(g_dy, *y, g_ch) == AXIS_MODEL(g_dy, __CPROVER_old(*y), __CPROVER_old(*h), __CPROVER_old(*sy), dest->height, source->height))
@@ -401,14 +404,14 @@ __CPROVER_assigns(D_ASSIGNS);
 #define BLIT_ENS(n) \
   __CPROVER_ensures(verif_exc == 0) \
   __CPROVER_ensures(BLIT_HITS ? D4_RULE(n) : D4_OLD) \
-  __CPROVER_assigns(D_ASSIGNS)
+  __CPROVER_assigns(D_ASSIGNS, g_cw, g_ch)
 /* variants with blend arithmetic: the blended case is claimed for the valuations where the tuple ghosts name the blend (g_tup_ok) */
 #define BLIT_ENS_ARITH(n, def) \
   __CPROVER_requires(g_tup_ok ==> n##_TUP(g_dr, g_dg, g_db, g_da)) \
   __CPROVER_requires(g_tup_ok ==> def) \
   __CPROVER_ensures(verif_exc == 0) \
   __CPROVER_ensures(BLIT_HITS ? (n##_COND ==> D4_RULE(n)) : D4_OLD) \
-  __CPROVER_assigns(D_ASSIGNS)
+  __CPROVER_assigns(D_ASSIGNS, g_cw, g_ch)
 #define BLIT_PARAMS Image* self, const Image* source, ssize_t x, ssize_t y, ssize_t w, ssize_t h, ssize_t sx, ssize_t sy
 
 void Image_blit(BLIT_PARAMS)
@@ -442,7 +445,7 @@ __CPROVER_requires(g_mx == g_sx && g_my == g_sy) __CPROVER_requires(OUTSIDE(mask
 __CPROVER_ensures(verif_exc == 0 || verif_exc == EXC_runtime_error)
 __CPROVER_ensures(verif_exc == 0 ==> (BLIT_HITS ? D4_RULE(MASKIMG) : D4_OLD))
 __CPROVER_ensures(verif_exc != 0 ==> D4_OLD)
-__CPROVER_assigns(D_ASSIGNS);
+__CPROVER_assigns(D_ASSIGNS, g_cw, g_ch);
 
 void Image_blend_blit(BLIT_PARAMS)
 BLIT_REQ(self, source) BLIT_ENS_ARITH(BLEND, TUP_DEFM);
